@@ -10,7 +10,7 @@ from props.C36 import M, cbytes, coq_tv, coq_ftab, coq_stab, coq_final, to_j
 
 ID = "C37"
 QUICK_N = 280
-THOROUGH_N = 4000
+THOROUGH_N = 2400
 SHARD = 40
 CASE_TYPE = "case37"
 COQ_PRELUDE = "From MV Require Import Model.Tnet Corr.C36.\nFrom MV Require Import Corr.C37.\n"
